@@ -91,6 +91,12 @@ func featureTag(t *TableDef, model, engine string) string {
 			}
 		}
 	}
+	hasCICol := false
+	for _, c := range t.Cols {
+		if c.Kind == KStr && c.CI {
+			hasCICol = true
+		}
+	}
 	dupSide := model == "duplicate-key" || engine == "duplicate-key"
 	switch {
 	case dupSide && hasCIKey:
@@ -99,6 +105,10 @@ func featureTag(t *TableDef, model, engine string) string {
 		return "prefix-unique-key"
 	case dupSide && strPKn >= 2:
 		return "composite-string-pk"
+	case !t.HasPK && hasCICol:
+		// rows that differ only in case under a case-insensitive collation are
+		// confused by the keyless edit accumulator (known finding keyless-ci-row-identity)
+		return "keyless-ci"
 	case hasVirtual:
 		return "virtual-generated"
 	case hasStored:
